@@ -1,63 +1,29 @@
-/- MANTIS, configuration 32le: the generated pieces equal the reference forms -/
-import SkinnyVerif.Lemmas.MantisRef
+/- MANTIS, configuration 32le: the generated pieces equal the reference forms
+   (each piece is proved in its own module `MantisPieces_32le_<piece>`) -/
+import SkinnyVerif.Lemmas.MantisPieces_32le_pre
+import SkinnyVerif.Lemmas.MantisPieces_32le_fwd
+import SkinnyVerif.Lemmas.MantisPieces_32le_mid
+import SkinnyVerif.Lemmas.MantisPieces_32le_bwd
+import SkinnyVerif.Lemmas.MantisPieces_32le_post
+import SkinnyVerif.Lemmas.MantisPieces_32le_preT
+import SkinnyVerif.Lemmas.MantisPieces_32le_fwdT
+import SkinnyVerif.Lemmas.MantisPieces_32le_midT
+import SkinnyVerif.Lemmas.MantisPieces_32le_bwdT
+import SkinnyVerif.Lemmas.MantisPieces_32le_postT
 
 namespace SkinnyVerif.Lemmas
 open SkinnyVerif SkinnyVerif.Gen SkinnyVerif.Impl
 
-set_option maxRecDepth 8000
-set_option maxHeartbeats 8000000
-
-/-- S-box layer applied to an image that itself contains per-half S-box results -/
-local syntax "mantis_bits_sbox2" : tactic
-macro_rules
-  | `(tactic| mantis_bits_sbox2) => `(tactic|
-    (bv_bits 64 <;>
-      (simp [gen_unfold, refPre, refFwd, refMid, refBwd, refPost, alphaImg, lane, extractLsb'_extractLsb'_le,
-             mantis_mix_columns, mantis_shift_rows, mantis_shift_rows_inverse, mantis_update_tweak, mantis_update_tweak_inverse,
-             mantis_sbox_64_getElem, mantis_sbox_32_getElem, msbox_64_lane, msbox_32_lane]
-       try (apply getElem_congr_fun
-            bv_bits 4 <;>
-              (simp [lane, extractLsb'_extractLsb'_le, mantis_sbox_64_getElem, mantis_sbox_32_getElem, msbox_64_lane, msbox_32_lane]
-               try ac_rfl)))))
-
 theorem mantisPieces_32le : MantisPiecesOK (opsMantis .c32le) where
-  pre := by
-    intro input ks
-    refine Prod.ext ?_ (Prod.ext ?_ ?_) <;> simp only [opsMantis] <;> mantis_bits
-  fwd := by
-    intro st tw k1 r
-    refine Prod.ext ?_ ?_ <;> simp only [opsMantis] <;> mantis_bits
-  mid := by
-    intro st k1
-    refine Prod.ext ?_ ?_ <;> simp only [opsMantis]
-    · mantis_bits_sbox2
-    · mantis_bits
-  bwd := by
-    intro st tw k1 r
-    refine Prod.ext ?_ ?_ <;> simp only [opsMantis]
-    · mantis_bits_sbox
-    · mantis_bits
-  post := by
-    intro st tw k1 ks
-    simp only [opsMantis]; mantis_bits
-  preT := by
-    intro input ks tw
-    refine Prod.ext ?_ (Prod.ext ?_ ?_) <;> simp only [opsMantis] <;> mantis_bits
-  fwdT := by
-    intro st tw k1 r
-    refine Prod.ext ?_ ?_ <;> simp only [opsMantis] <;> mantis_bits
-  midT := by
-    intro st k1
-    refine Prod.ext ?_ ?_ <;> simp only [opsMantis]
-    · mantis_bits_sbox2
-    · mantis_bits
-  bwdT := by
-    intro st tw k1 r
-    refine Prod.ext ?_ ?_ <;> simp only [opsMantis]
-    · mantis_bits_sbox
-    · mantis_bits
-  postT := by
-    intro st tw k1 ks
-    simp only [opsMantis]; mantis_bits
+  pre := mantisPiece_32le_pre
+  fwd := mantisPiece_32le_fwd
+  mid := mantisPiece_32le_mid
+  bwd := mantisPiece_32le_bwd
+  post := mantisPiece_32le_post
+  preT := mantisPiece_32le_preT
+  fwdT := mantisPiece_32le_fwdT
+  midT := mantisPiece_32le_midT
+  bwdT := mantisPiece_32le_bwdT
+  postT := mantisPiece_32le_postT
 
 end SkinnyVerif.Lemmas
